@@ -382,7 +382,8 @@ def norm_family(family, t, k, repo):
             d -= lit[j] in ')}]' and 1 or 0
             j += 1
         v = lit[i + 2:j]
-        kids = [M, '::', 'Futures', '{'] + sum(([n_, ':', 'ManuallyDrop', '::', 'new', '(', n_, '.', 'into_future', '(', ')', ')', ','] for n_ in names), []) + ['}']
+        kids = [M, '::', 'Futures', '{'] + sum(([n_, ':', 'ManuallyDrop', '::', 'new', '(', n_, '.', 'into_future', '(', ')', ')', ','] for n_ in names), [])[:-1] + ['}']
+        v = replace_all(v, [',', '}'], ['}'])
         outs = ['('] + sum((['MaybeUninit', '::', '<'] + fam['out'](n_) + ['>', '::', 'uninit', '(', ')', ','] for n_ in names), [])
         if len(names) > 1:
             outs.pop()
@@ -410,6 +411,369 @@ def norm_family(family, t, k, repo):
     drop_txt = ("impl<%s> PinnedDrop for %s<%s> {\n    fn drop(self: Pin<&mut Self>) {\n        %s\n    }\n}\n" % (G, fam['struct'], GA, ' '.join(dbody)))
     return struct_txt + "\n" + ctor_txt + "\n" + poll_txt + "\n" + drop_txt
 
+
+def fold_enum_dispatch(t, names, M, var='index', kids='streams'):
+    """R3 for the stream families: `let stream_index = <mod>::Indexes::F as usize; if stream_index == index { B };` per child"""
+    k = len(names)
+    head = lambda F: ['let', 'stream_index', '=', M, '::', 'Indexes', '::', F, 'as', 'usize', ';', 'if', 'stream_index', '==', var, '{']
+    i = find(t, head(names[0]))
+    if i < 0:
+        raise NormError("R3: no index dispatch found")
+    bodies, j = [], i
+    for idx in range(k):
+        F = names[idx]
+        h = head(F)
+        if t[j:j + len(h)] != h:
+            raise NormError(f"R3: arm {idx} of the index dispatch is missing or out of order")
+        e = close(t, j + len(h) - 1)
+        b = t[j + len(h):e]
+        b = replace_all(b, ['unsafe', '{', 'Pin', '::', 'new_unchecked', '(', '&', 'mut', kids, '.', F, ')', '}'], ['stream'])
+        b = replace_all(b, ['stream_index'], [var])
+        if F in b or kids in b:
+            raise NormError(f"R3: arm {idx} mentions its child in a way the rule does not cover")
+        bodies.append(b)
+        j = e + 1
+        if j < len(t) and t[j] == ';':
+            j += 1
+    if t[j:j + 3] == ['let', 'stream_index', '=']:
+        raise NormError("R3: more arms than children")
+    if any(b != bodies[0] for b in bodies):
+        raise NormError("R3: the arms of the index dispatch differ between children")
+    rep = ['if', var, '<', 'N', '{', 'let', 'stream', '=', 'utils', '::', 'get_pin_mut', '(', 'this', '.', kids, '.', 'as_mut', '(', ')', ',', var, ')', '.', 'unwrap', '(', ')', ';'] + bodies[0] + ['}']
+    return t[:i] + rep + t[j:]
+
+def children_of(t, M, k, sname, wrap):
+    mi = find(t, ['mod', M, '{'])
+    if mi < 0:
+        raise NormError(f"module {M} not found")
+    me = close(t, mi + 2)
+    fi = find(t, ['struct', sname, '<'], mi, me)
+    if fi < 0:
+        raise NormError(f"{M}::{sname} not found")
+    names, ge = names_of(t, fi + 2)
+    if len(names) != k:
+        raise NormError(f"{M}::{sname} has {len(names)} type parameters, expected {k}")
+    fb = t.index('{', ge)
+    fbody = strip_attrs(t[fb + 1:close(t, fb)])
+    expf = []
+    for n_ in names:
+        expf += ['pub', '(', 'super', ')', n_, ':'] + (['ManuallyDrop', '<', n_, '>'] if wrap else [n_]) + [',']
+    if fbody != expf:
+        raise NormError(f"{M}::{sname} is not one child per type parameter")
+    li = find(t, ['const', 'LEN', ':', 'usize', '='], mi, me)
+    explen = ['const', 'LEN', ':', 'usize', '=', '[']
+    for n_ in names:
+        explen += ['Indexes', '::', n_, ',']
+    explen.pop()
+    explen += [']', '.', 'len', '(', ')', ';']
+    if li < 0 or t[li:li + len(explen)] != explen:
+        raise NormError(f"R1: {M}::LEN is not the number of children")
+    return names, mi, me
+
+def fields_of(body):
+    fields, i = [], 0
+    while i < len(body):
+        nm = body[i]
+        if body[i + 1] != ':':
+            raise NormError("cannot read a field list")
+        j, d = i + 2, 0
+        while j < len(body) and not (body[j] == ',' and d == 0):
+            d += body[j] in '<({[' and 1 or 0
+            d -= body[j] in '>)}]' and 1 or 0
+            j += 1
+        fields.append((nm, body[i + 2:j]))
+        i = j + 1
+    return fields
+
+def norm_merge(t, k, repo):
+    """the tuple `merge` (src/stream/merge/tuple.rs): no destructor, children held unwrapped, the dispatch goes through
+    `#[repr(usize)] enum Indexes` (R8: declared in the order of the children, so `Indexes::F as usize` is F's position),
+    `completed: u8` is read as `usize` (at most 12 children), `Indexer::new(0 + 1 + … + 1)` is `Indexer::new(N)`"""
+    S, M = 'Merge' + str(k), 'merge' + str(k)
+    names, mi, me = children_of(t, M, k, 'Streams', False)
+    ei = find(t, ['enum', 'Indexes', '{'], mi, me)
+    if ei < 0 or t[ei + 3:close(t, ei + 2)] != sum(([n_, ','] for n_ in names), []) or t[ei - 5:ei - 4] != [')'] and False:
+        raise NormError(f"R8: {M}::Indexes does not list the children in order")
+    ai = ei
+    while ai > mi and t[ai] != '#':
+        ai -= 1
+    if t[ai:ai + 6] != ['#', '[', 'repr', '(', 'usize', ')']:
+        raise NormError(f"R8: {M}::Indexes is not #[repr(usize)]")
+    si = find(t, ['struct', S, '<'])
+    if si < 0:
+        raise NormError(f"struct {S} not found")
+    gn, ge = names_of(t, si + 2)
+    sb = t.index('{', ge)
+    fields = []
+    for nm, ty in fields_of(strip_attrs(t[sb + 1:close(t, sb)])):
+        if ty == [M, '::', 'Streams', '<'] + sum(([n_, ','] for n_ in names), [])[:-1] + ['>']:
+            ty2 = '[S; N]'
+        elif ty in (['utils', '::', 'Indexer'], ['Indexer']):
+            ty2 = 'Indexer'
+        elif ty == ['PollArray', '<', '{', M, '::', 'LEN', '}', '>']:
+            ty2 = 'PollArray<N>'
+        elif ty == ['WakerArray', '<', '{', M, '::', 'LEN', '}', '>']:
+            ty2 = 'WakerArray<N>'
+        elif ty in (['usize'], ['u8']):
+            ty2 = 'usize'
+        elif ty == ['bool']:
+            ty2 = 'bool'
+        else:
+            raise NormError(f"R6: struct {S}: field `{nm}` has a type the rule does not cover: {' '.join(ty)}")
+        fields.append((nm, ty2))
+    kidsf = [nm for nm, ty in fields if ty == '[S; N]']
+    if len(kidsf) != 1:
+        raise NormError(f"struct {S}: no field holds the children")
+    kidsf = kidsf[0]
+    struct_txt = "pub struct Merge<S, const N: usize> {\n%s}\n" % ''.join(f"    {n_}: {ty},\n" for n_, ty in fields)
+    pi = find(t, ['Stream', 'for', S, '<'], si)
+    if pi < 0:
+        raise NormError(f"impl Stream for {S} not found")
+    pf = find(t, ['fn', 'poll_next', '('], pi)
+    pb = t.index('{', close(t, pf + 2))
+    body = strip_attrs(t[pb + 1:close(t, pb)])
+    c0 = ['const', 'LEN', ':', 'u8', '=', M, '::', 'LEN', 'as', 'u8', ';']
+    if find(body, c0) < 0:
+        raise NormError("R1: `const LEN: u8 = <mod>::LEN as u8;` not found in poll_next")
+    body = replace_all(body, c0, [])
+    body = ['N' if x == 'LEN' else x for x in body]
+    body = fold_assert(body)
+    pj = ['let', 'mut', 'streams', '=', 'this', '.', kidsf, '.', 'project', '(', ')', ';']
+    if find(body, pj) < 0:
+        raise NormError("poll_next: the children are not projected as expected")
+    body = replace_all(body, pj, [])
+    body = fold_enum_dispatch(body, names, M, kids='streams')
+    body = [kidsf if (x == 'streams' and n_ > 0 and body[n_ - 1] == '.') else x for n_, x in enumerate(body)]
+    if any(n_ in body for n_ in names if n_ != 'N'):
+        raise NormError("poll_next mentions a child outside the index dispatch")
+    if len(names) == 1:
+        ci = find(t, ['MergeTrait', 'for', '(', names[0], ',', ')'], si)
+    else:
+        ci = find(t, ['MergeTrait', 'for', '('] + sum(([n_, ','] for n_ in names), [])[:-1] + [')'], si)
+    if ci < 0:
+        raise NormError("constructor impl not found")
+    cf = find(t, ['fn', 'merge', '(', 'self', ')'], ci)
+    cb = t.index('{', cf)
+    cbody = t[cb + 1:close(t, cb)]
+    li_ = find(cbody, [S, '{'])
+    if li_ < 0:
+        raise NormError("constructor: struct literal not found")
+    inits = []
+    for nm, v in fields_of(cbody[li_ + 2:close(cbody, li_ + 1)]):
+        kids = [M, '::', 'Streams', '{'] + sum(([n_, ':', n_, '.', 'into_stream', '(', ')', ','] for n_ in names), [])[:-1] + ['}']
+        v = replace_all(v, [',', '}'], ['}'])
+        ones = ['0'] + ['+', '1'] * k
+        if v == kids:
+            v2 = 'streams'
+        elif v in (['utils', '::', 'Indexer', '::', 'new', '('] + ones + [')'], ['Indexer', '::', 'new', '('] + ones + [')']):
+            v2 = 'Indexer::new(N)'
+        elif v in (['PollArray', '::', 'new_pending', '(', ')'], ['WakerArray', '::', 'new', '(', ')'], ['PollArray', '::', 'new', '(', ')']):
+            v2 = ''.join(v)
+        elif len(v) == 1 and re.match(r'\d+$|true$|false$', v[0]):
+            v2 = v[0]
+        else:
+            raise NormError(f"R6: constructor: field `{nm}` is initialised in a way the rule does not cover: {' '.join(v)}")
+        inits.append((nm, v2))
+    ctor_txt = ("impl<S, const N: usize> Merge<S, N> {\n    pub(crate) fn new(streams: [S; N]) -> Self {\n        Self {\n%s        }\n    }\n}\n"
+                % ''.join(f"            {n_}: {v},\n" for n_, v in inits))
+    poll_txt = ("impl<S, const N: usize> Stream for Merge<S, N> {\n    type Item = S::Item;\n"
+                "    fn poll_next(self: Pin<&mut Self>, cx: &mut Context<'_>) -> Poll<Option<Self::Item>> {\n        %s\n    }\n}\n" % ' '.join(body))
+    return struct_txt + "\n" + ctor_txt + "\n" + poll_txt
+
+
+def norm_zip(t, k, repo):
+    """the tuple `zip` (src/stream/zip/tuple.rs): the children are fields of the struct itself, the row buffer is the helper
+    struct `<mod>::Output` (one `MaybeUninit` per child, `Default` = all uninitialised), the dispatch is
+    `match index { <mod>::F => { … } … _ => unreachable!() }` over the constants `<mod>::F = Indexes::F as usize` (R8)"""
+    S, M = 'Zip' + str(k), 'zip_' + str(k)
+    mi = find(t, ['mod', M, '{'])
+    if mi < 0:
+        raise NormError(f"module {M} not found")
+    me = close(t, mi + 2)
+    oi = find(t, ['struct', 'Output', '<'], mi, me)
+    if oi < 0:
+        raise NormError(f"{M}::Output not found")
+    names, ge = names_of(t, oi + 2)
+    if len(names) != k:
+        raise NormError(f"{M}::Output has {len(names)} type parameters, expected {k}")
+    ob = t.index('{', ge)
+    expo = sum((['pub', '(', 'super', ')', n_, ':', 'core', '::', 'mem', '::', 'MaybeUninit', '<', '<', n_, 'as', 'super', '::', 'Stream', '>', '::', 'Item', '>', ','] for n_ in names), [])
+    if strip_attrs(t[ob + 1:close(t, ob)]) != expo:
+        raise NormError(f"{M}::Output is not one MaybeUninit item per child")
+    di = find(t, ['fn', 'default', '(', ')', '->', 'Self', '{', 'Self', '{'], mi, me)
+    expd = sum(([n_, ':', 'core', '::', 'mem', '::', 'MaybeUninit', '::', 'uninit', '(', ')', ','] for n_ in names), [])
+    if di < 0 or replace_all(t[di + 9:close(t, di + 8)] + ['}'], [',', '}'], ['}']) != expd[:-1] + ['}']:
+        raise NormError(f"{M}::Output::default is not all-uninitialised")
+    ei = find(t, ['enum', 'Indexes', '{'], mi, me)
+    if ei < 0 or t[ei + 3:close(t, ei + 2)] != sum(([n_, ','] for n_ in names), []):
+        raise NormError(f"R8: {M}::Indexes does not list the children in order")
+    ai = ei
+    while ai > mi and t[ai] != '#':
+        ai -= 1
+    if t[ai:ai + 6] != ['#', '[', 'repr', '(', 'usize', ')']:
+        raise NormError(f"R8: {M}::Indexes is not #[repr(usize)]")
+    for n_ in names:
+        if find(t, ['const', n_, ':', 'usize', '=', 'Indexes', '::', n_, 'as', 'usize', ';'], mi, me) < 0:
+            raise NormError(f"R8: {M}::{n_} is not `Indexes::{n_} as usize`")
+    explen = ['const', 'LEN', ':', 'usize', '=', '['] + sum((['Indexes', '::', n_, ','] for n_ in names), [])[:-1] + [']', '.', 'len', '(', ')', ';']
+    if find(t, explen, mi, me) < 0:
+        raise NormError(f"R1: {M}::LEN is not the number of children")
+    si = find(t, ['struct', S, '<'])
+    if si < 0:
+        raise NormError(f"struct {S} not found")
+    gn, ge = names_of(t, si + 2)
+    sb = t.index('{', ge)
+    fields, kidseen = [], []
+    for nm, ty in fields_of(strip_attrs(t[sb + 1:close(t, sb)])):
+        if nm in names and ty == [nm]:
+            kidseen.append(nm)
+            continue
+        if ty == [M, '::', 'Output', '<'] + sum(([n_, ','] for n_ in names), [])[:-1] + ['>']:
+            ty2 = '[MaybeUninit<<S as Stream>::Item>; N]'
+        elif ty == ['PollArray', '<', '{', M, '::', 'LEN', '}', '>']:
+            ty2 = 'PollArray<N>'
+        elif ty == ['WakerArray', '<', '{', M, '::', 'LEN', '}', '>']:
+            ty2 = 'WakerArray<N>'
+        elif ty in (['usize'], ['bool']):
+            ty2 = ty[0]
+        else:
+            raise NormError(f"R6: struct {S}: field `{nm}` has a type the rule does not cover: {' '.join(ty)}")
+        fields.append((nm, ty2))
+    if kidseen != names:
+        raise NormError(f"struct {S}: the children are not the fields {names}")
+    outf = [nm for nm, ty in fields if ty.startswith('[MaybeUninit')]
+    if len(outf) != 1:
+        raise NormError(f"struct {S}: no row buffer")
+    outf = outf[0]
+    fields.append(('streams', '[S; N]'))
+    struct_txt = "pub struct Zip<S, const N: usize> {\n%s}\n" % ''.join(f"    {n_}: {ty},\n" for n_, ty in fields)
+    # ---- poll_next
+    pi = find(t, ['Stream', 'for', S, '<'], si)
+    pf = find(t, ['fn', 'poll_next', '('], pi)
+    pb = t.index('{', close(t, pf + 2))
+    body = strip_attrs(t[pb + 1:close(t, pb)])
+    c0 = ['const', 'LEN', ':', 'usize', '=', M, '::', 'LEN', ';']
+    if find(body, c0) < 0:
+        raise NormError("R1: `const LEN: usize = <mod>::LEN;` not found in poll_next")
+    body = replace_all(body, c0, [])
+    body = ['N' if x == 'LEN' else x for x in body]
+    body = fold_assert(body)
+    i = find(body, ['match', 'index', '{'])
+    if i < 0:
+        raise NormError("R3: `match index { … }` not found")
+    e = close(body, i + 2)
+    arms, j, bodies = body[i + 3:e], 0, []
+    for idx, F in enumerate(names):
+        h = [M, '::', F, '=>', '{', 'let', 'stream', '=', 'unsafe', '{', 'Pin', '::', 'new_unchecked', '(', '&', 'mut', 'this', '.', F, ')', '}', ';']
+        if arms[j:j + len(h)] != h:
+            raise NormError(f"R3: arm {idx} of `match index` is missing or out of order")
+        ae = close(arms, j + 4)
+        b = arms[j + len(h):ae]
+        b = replace_all(b, ['this', '.', outf, '.', F], ['this', '.', outf, '[', 'index', ']'])
+        b = replace_all(b, ['[', M, '::', F, ']'], ['[', 'index', ']'])
+        if F in b:
+            raise NormError(f"R3: arm {idx} mentions its child in a way the rule does not cover")
+        bodies.append(b)
+        j = ae + 1
+        if j < len(arms) and arms[j] == ',':
+            j += 1
+    rest = arms[j:]
+    if rest[:2] != ['_', '=>'] or 'panic' not in rest or len(rest) > 12:
+        raise NormError("R3: the fallback arm of `match index` is not `unreachable!()`")
+    if any(b != bodies[0] for b in bodies):
+        raise NormError("R3: the arms of `match index` differ between children")
+    pre = ['assert', '!', '(', 'index', '<', 'N', ')', ';', 'let', 'stream', '=', 'utils', '::', 'get_pin_mut', '(', 'this', '.', 'streams', '.', 'as_mut', '(', ')', ',', 'index', ')', '.', 'unwrap', '(', ')', ';']
+    if i < 3 or body[i - 3] != 'let' or body[i - 1] != '=' or bodies[0][:1] != ['match'] or close(bodies[0], bodies[0].index('{')) != len(bodies[0]) - 1:
+        raise NormError("R3: `match index` is not the right-hand side of a `let`, or its arms are not a single `match` on the child's poll")
+    body = body[:i - 3] + pre + body[i - 3:i] + bodies[0] + body[e + 1:]
+    tk = (['let', 'mut', 'output', '=', M, '::', 'Output', '::', 'default', '(', ')', ';', 'core', '::', 'mem', '::', 'swap', '(', 'this', '.', outf, ',', '&', 'mut', 'output', ')', ';',
+           'match', 'output', '{', M, '::', 'Output', '{'] + sum(([n_, ','] for n_ in names), [])[:-1] + ['}', '=>', 'return', 'Poll', '::', 'Ready', '(', 'Some', '(', '(']
+          + sum((['unsafe', '{', n_, '.', 'assume_init', '(', ')', '}', ','] for n_ in names), []))
+    if len(names) > 1:
+        tk.pop()
+    tk += [')', ')', ')', ',', '}']
+    if find(body, tk) < 0:
+        raise NormError("R5: the block that moves the row out has an unexpected shape")
+    body = replace_all(body, tk, ['let', 'mut', 'output', '=', 'array', '::', 'from_fn', '(', '|', '_', '|', 'MaybeUninit', '::', 'uninit', '(', ')', ')', ';',
+                                  'mem', '::', 'swap', '(', 'this', '.', outf, ',', '&', 'mut', 'output', ')', ';',
+                                  'let', 'output', '=', 'unsafe', '{', 'array_assume_init', '(', 'output', ')', '}', ';', 'return', 'Poll', '::', 'Ready', '(', 'Some', '(', 'output', ')', ')', ';'])
+    if any(n_ in body for n_ in names if n_ != 'N') or M in body:
+        raise NormError("poll_next mentions a child outside the index dispatch")
+    # ---- destructor
+    di = find(t, ['PinnedDrop', 'for', S, '<'], si)
+    if di < 0:
+        raise NormError(f"PinnedDrop for {S} not found")
+    df = find(t, ['fn', '__drop_inner', '<'], di)
+    db = t.index('{', close(t, t.index('(', df)))
+    dbody = strip_attrs(t[db + 1:close(t, db)])
+    dbody = replace_all(dbody, ['fn', '__drop_inner', '(', ')', '{', '}'], [])
+    dbody = replace_all(dbody, ['__self', '.', 'project', '(', ')'], ['self', '.', 'project', '(', ')'])
+    i = find(dbody, ['if', 'this', '.', 'state', '['])
+    if i < 0:
+        raise NormError("R4: per-slot sequence not found in the destructor")
+    j, bodies = i, []
+    for F in names:
+        h = ['if', 'this', '.', 'state', '[', M, '::', F, ']', '.', 'is_ready', '(', ')', '{']
+        if dbody[j:j + len(h)] != h:
+            raise NormError("R4: a slot of the destructor's per-slot sequence is missing or out of order")
+        e = close(dbody, j + len(h) - 1)
+        b = replace_all(dbody[j + len(h):e], ['this', '.', outf, '.', F], ['output'])
+        if F in b:
+            raise NormError("R4: a slot mentions its child in a way the rule does not cover")
+        bodies.append(b)
+        j = e + 1
+    if any(b != bodies[0] for b in bodies) or dbody[j:] != []:
+        raise NormError("R4: the per-slot bodies of the destructor differ or something follows them")
+    dbody = dbody[:i] + ['for', '(', 'state', ',', 'output', ')', 'in', 'this', '.', 'state', '.', 'iter_mut', '(', ')', '.', 'zip', '(', 'this', '.', outf, '.', 'iter_mut', '(', ')', ')', '{',
+                         'if', 'state', '.', 'is_ready', '(', ')', '{'] + bodies[0] + ['}', '}']
+    # ---- constructor
+    if len(names) == 1:
+        ci = find(t, ['Zip', 'for', '(', names[0], ',', ')'], si)
+    else:
+        ci = find(t, ['Zip', 'for', '('] + sum(([n_, ','] for n_ in names), [])[:-1] + [')'], si)
+    if ci < 0:
+        raise NormError("constructor impl not found")
+    cf = find(t, ['fn', 'zip', '(', 'self', ')'], ci)
+    cb = t.index('{', cf)
+    cbody = t[cb + 1:close(t, cb)]
+    li_ = find(cbody, ['Self', '::', 'Stream', '{'])
+    if li_ < 0:
+        raise NormError("constructor: struct literal not found")
+    lit = replace_all(cbody[li_ + 4:close(cbody, li_ + 3)] + ['}'], [',', '}'], ['}'])[:-1]
+    inits, kidseen, i = [], [], 0
+    parts, cur, d = [], [], 0
+    for x in lit:
+        if x == ',' and d == 0:
+            parts.append(cur); cur = []
+        else:
+            d += x in '({[' and 1 or 0
+            d -= x in ')}]' and 1 or 0
+            cur.append(x)
+    if cur:
+        parts.append(cur)
+    for pz in parts:
+        if len(pz) == 1 and pz[0] in names:
+            kidseen.append(pz[0]); continue
+        nm, v = pz[0], pz[2:]
+        if v == ['Default', '::', 'default', '(', ')'] and nm == outf:
+            v2 = 'array::from_fn(|_| MaybeUninit::uninit())'
+        elif v in (['PollArray', '::', 'new_pending', '(', ')'], ['WakerArray', '::', 'new', '(', ')']):
+            v2 = ''.join(v)
+        elif len(v) == 1 and re.match(r'\d+$|true$|false$', v[0]):
+            v2 = v[0]
+        else:
+            raise NormError(f"R6: constructor: field `{nm}` is initialised in a way the rule does not cover: {' '.join(v)}")
+        inits.append((nm, v2))
+    if kidseen != names:
+        raise NormError("constructor: the children are not moved into their fields in order")
+    inits.append(('streams', 'streams'))
+    ctor_txt = ("impl<S, const N: usize> Zip<S, N> {\n    pub(crate) fn new(streams: [S; N]) -> Self {\n        Self {\n%s        }\n    }\n}\n"
+                % ''.join(f"            {n_}: {v},\n" for n_, v in inits))
+    poll_txt = ("impl<S, const N: usize> Stream for Zip<S, N> {\n    type Item = [S::Item; N];\n"
+                "    fn poll_next(self: Pin<&mut Self>, cx: &mut Context<'_>) -> Poll<Option<Self::Item>> {\n        %s\n    }\n}\n" % ' '.join(body))
+    drop_txt = ("impl<S, const N: usize> PinnedDrop for Zip<S, N> {\n    fn drop(self: Pin<&mut Self>) {\n        %s\n    }\n}\n" % ' '.join(dbody))
+    return struct_txt + "\n" + ctor_txt + "\n" + poll_txt + "\n" + drop_txt
+
 _CACHE = {}
 
 def normalised(repo, family, features='std'):
@@ -420,7 +784,7 @@ def normalised(repo, family, features='std'):
     t = _CACHE[key]
     texts = {}
     for k in range(1, 13):
-        texts[k] = norm_family(family, t, k, repo)
+        texts[k] = norm_merge(t, k, repo) if family == 'merge' else norm_zip(t, k, repo) if family == 'zip' else norm_family(family, t, k, repo)
     for k in range(2, 13):
         if texts[k] != texts[1]:
             a, b = texts[1].split(), texts[k].split()
